@@ -337,6 +337,9 @@ class Elab:
                 return base.attrs[attr]
             if base.kind == "inst":
                 f = self.find_method(base.clsv, attr)
+                if f is not None and any(isinstance(d, ast.Name) and d.id == "property" for d in f[1].decorator_list):
+                    fn = Func(f[1], f[0].env, "%s.%s" % (f[0].name, attr), selfobj=base, clsv=f[0], module=f[0].module)
+                    return self.call_func(fn, [], {}, node)
                 if f is not None:
                     return Func(f[1], f[0].env, "%s.%s" % (f[0].name, attr), selfobj=base, clsv=f[0], module=f[0].module)
                 c = self.find_class_const(base.clsv, attr)
@@ -1159,6 +1162,16 @@ class Elab:
                 return self.make_prim(last, args, kwargs, n)
             kws = tuple(Op("kw", (Const(k), v)) for k, v in kwargs.items())
             return Op("call", (fv,) + tuple(args) + kws)
+        if isinstance(fv, Op) and fv.op == "namedtuple":
+            o = self.new_obj(fv.args[0].v, args, kwargs, n)
+            fields = [x.v for x in fv.args[1].items]
+            for i, fnm in enumerate(fields):
+                if i < len(args):
+                    o.attrs[fnm] = args[i]
+                elif fnm in kwargs:
+                    o.attrs[fnm] = kwargs[fnm]
+            o.fields = fields
+            return o
         if isinstance(fv, Obj) and fv.cls in WRAPPERS and len(args) == 1:
             target = args[0]
             if isinstance(target, Obj):
@@ -1353,6 +1366,15 @@ class Elab:
             if name == "setattr" and len(a) == 3 and isinstance(a[1], Const):
                 self.setattr(a[0], a[1].v, a[2])
                 return Const(None)
+            if name == "namedtuple" and len(a) == 2 and isinstance(a[0], Const):
+                fl = pylist(a[1])
+                if fl is not None and all(isinstance(x, Const) for x in fl):
+                    return Op("namedtuple", (a[0], ListV(fl)))
+            if name == "map" and len(a) == 2:
+                l = self.iter_items(a[1])
+                if l is not None:
+                    return ListV([self.call_value(a[0], [x], {}, n, env) for x in l])
+                return Op("map", tuple(a))
             if name == "locals":
                 d = DictV()
                 for k, v in env.vars.items():
@@ -1536,6 +1558,17 @@ class Elab:
         self.design.instances[o.path] = o
         fm = self.find_method(clsv, "__init__")
         if fm is None:
+            for b in clsv.bases:
+                if isinstance(b, ast.Call) and isinstance(b.func, ast.Name) and b.func.id == "namedtuple" and len(b.args) == 2:
+                    try:
+                        fields = [e.value for e in b.args[1].elts]
+                    except Exception:
+                        fields = []
+                    for i, fnm in enumerate(fields):
+                        if i < len(args):
+                            o.attrs[fnm] = args[i]
+                        elif fnm in kwargs:
+                            o.attrs[fnm] = kwargs[fnm]
             return o
         if self.depth_total() > self.MAX_DEPTH:
             self.unk("depth:" + clsv.name, n)
@@ -1978,6 +2011,39 @@ def elaborate(repo, modname, clsname, args=None, kwargs=None, overrides=None, ha
     finally:
         el.inst_stack.pop()
     return el.design, el
+
+
+def eval_method(repo, modname, clsname, method, args=None, kwargs=None, overrides=None, hasattrs=None):
+    """Symbolically evaluate one method of a repository class on a fresh symbolic instance `self`
+    (its __init__ is NOT run: attributes are opaque `self.x` symbols). Returns (value, Elab)."""
+    el = Elab(repo, overrides, hasattrs)
+    env = el.modenv(modname)
+    if env is None:
+        raise KeyError("module %s not found" % modname)
+    clsv = env.vars.get(clsname)
+    if not isinstance(clsv, ClassV):
+        raise KeyError("class %s not found in %s" % (clsname, modname))
+    top = el.new_obj(clsname, (), {}, None, kind="inst")
+    top.clsv = clsv
+    top.path = ""
+    top.name = "self"
+    top.provisional = False
+    el.design.names["self"] = top
+    el.design.top = top
+    fm = el.find_method(clsv, method)
+    if fm is None:
+        raise KeyError("method %s.%s not found" % (clsname, method))
+    fn = Func(fm[1], fm[0].env, fm[0].name + "." + method, selfobj=top, clsv=fm[0], module=fm[0].module)
+    el.inst_stack.append(top)
+    el.depth = -1
+    try:
+        r = el.call_func(fn, list(args or ()), dict(kwargs or {}), None)
+    except _Dead:
+        r = None
+    finally:
+        el.inst_stack.pop()
+        el.depth = 0
+    return r, el
 
 
 def eval_function(repo, modname, fname, args=None, kwargs=None, overrides=None, selfobj=None):
